@@ -169,6 +169,17 @@ class Interp:
         m = re.match(r'^"(.*)"$', t, re.S)
         if m:
             return ('str', m.group(1))
+        m = re.match(r'^ZeroSized: (\{closure@[^}]*\})$', t)
+        if m:
+            for name, f in self.funcs.items():
+                if '{closure' in name and f.args and m.group(1) in f.args[0][1]:
+                    return ('closure', name, S('{env}', []))
+            raise Unsupported("closure body not found for " + m.group(1))
+        m = re.match(r'^(?:\w+::)*(\w+)$', t)
+        if m:
+            k = getattr(self.contracts, 'extra', {}).get('__consts__', {})
+            if m.group(1) in k and isinstance(k[m.group(1)], int):
+                return ('int', k[m.group(1)])
         return ('opaque', 'const ' + t[:80])
 
     # ------------------------------------------------------------ rvalues
@@ -203,7 +214,7 @@ class Interp:
         if k == 'discriminant':
             v = self.read_place(st, fr, rv[1])
             if isinstance(v, tuple) and v[0] == 'enum':
-                return ('int', {'None': 0, 'Some': 1, 'Ok': 0, 'Err': 1}[v[1]])
+                return ('int', {'None': 0, 'Some': 1, 'Ok': 0, 'Err': 1, 'Continue': 0, 'Break': 1}[v[1]])
             if isinstance(v, tuple) and v[0] == 'bool':
                 return ('int', int(v[1]))
             raise Unsupported("discriminant of non-enum")
